@@ -129,6 +129,32 @@ theorem Track.strip_addSlur (t : Track) : t.addSlur.1.strip = t.strip.addSlur.1 
   | none => exact ⟨rfl, rfl⟩
   | some l => exact ⟨rfl, rfl⟩
 
+theorem rrBack_strip (d : UInt16) (l : List BEvent) :
+    Track.rrBack d (l.map BEvent.strip) = ((Track.rrBack d l).1, (Track.rrBack d l).2.map BEvent.strip) := by
+  induction l with
+  | nil => rfl
+  | cons e es ih =>
+    simp only [List.map_cons, Track.rrBack, BEvent.strip_type, BEvent.strip_on, BEvent.strip_off]
+    by_cases h1 : e.type = ev_NOTE ∨ e.type = ev_TIE ∨ e.type = ev_REST
+    · simp only [h1, if_true]
+      by_cases h2 : d > e.off
+      · simp only [h2, if_true]
+        by_cases h3 : d - e.off < e.on
+        · simp only [h3, if_true]; rfl
+        · simp only [h3, if_false]; rfl
+      · simp only [h2, if_false]; rfl
+    · simp only [h1, if_false]
+      by_cases h2 : e.type = ev_SEGNO ∨ e.type = ev_LOOP_END
+      · simp only [h2, if_true]; rfl
+      · simp only [h2, if_false, ih]; rfl
+
+theorem Track.strip_reverseRest (t : Track) (d : UInt16) :
+    (t.reverseRest d).1.strip = (t.strip.reverseRest d).1 ∧ (t.strip.reverseRest d).2 = (t.reverseRest d).2 := by
+  unfold Track.reverseRest
+  have h : t.strip.flipShuffle.revEvents = t.flipShuffle.revEvents.map BEvent.strip := rfl
+  simp only [h, rrBack_strip]
+  exact ⟨rfl, trivial⟩
+
 theorem Track.strip_setQuantize (t : Track) (p parts : UInt16) :
     (t.setQuantize p parts).1.strip = (t.strip.setQuantize p parts).1 := by
   unfold Track.setQuantize
